@@ -17,7 +17,7 @@ import (
 type gate interface {
 	send(wire []byte, dstPid uint32) int
 	recv() (b []byte, fromPid uint32, groups uint32, nonNetlink bool, errno int)
-	close()
+	close() int
 }
 
 // KRecv scripts transient receive failures: before the n-th successful
@@ -46,6 +46,11 @@ type kernelPort struct {
 	sendErrno     []int // errno for the n-th sendto (0 = ok)
 	sends         int
 	sendFailed    int
+	recvHard      []int // receive-call ordinals (counted over the run) that fail with ENOBUFS
+	hardFired     int
+	closeErrno    []int // errno reported by the n-th close(2) (the descriptor is released regardless)
+	closeCalls    int
+	closeFailed   int
 }
 
 func (p *kernelPort) doSend(wire []byte, dstPid uint32) int {
@@ -58,7 +63,27 @@ func (p *kernelPort) doSend(wire []byte, dstPid uint32) int {
 	return p.k.Sendto(wire, dstPid)
 }
 
+// doClose is close(2) on the socket: the descriptor is released in any case;
+// the call may still report an error (EINTR, EIO).
+func (p *kernelPort) doClose() int {
+	n := p.closeCalls
+	p.closeCalls++
+	p.k.Close()
+	if n < len(p.closeErrno) && p.closeErrno[n] != 0 {
+		p.closeFailed++
+		return p.closeErrno[n]
+	}
+	return 0
+}
+
 func (p *kernelPort) doRecv() (*kern.Datagram, int) {
+	for _, n := range p.recvHard {
+		if n == p.recvCalls {
+			p.recvCalls++
+			p.hardFired++
+			return nil, 105 // ENOBUFS: the socket's receive queue overran; not a transient failure
+		}
+	}
 	p.recvCalls++
 	if !p.armed {
 		p.armed = true
@@ -113,7 +138,7 @@ func (g *directGate) recv() ([]byte, uint32, uint32, bool, int) {
 	}
 	return d.Bytes, d.FromPid, d.Groups, d.NonNetlink, 0
 }
-func (g *directGate) close() { g.p.k.Close() }
+func (g *directGate) close() int { return g.p.doClose() }
 
 const (
 	sysSend = iota + 1
@@ -142,9 +167,9 @@ func (g *schedGate) recv() ([]byte, uint32, uint32, bool, int) {
 	return r.Data, uint32(r.A), uint32(r.A >> 32), r.N == 1, int(r.Errno)
 }
 
-func (g *schedGate) close() {
+func (g *schedGate) close() int {
 	t := g.sc.Me()
-	t.Sys(core.SysReq{Op: sysClose, B: g.port})
+	return int(t.Sys(core.SysReq{Op: sysClose, B: g.port}).Errno)
 }
 
 // sysHandler executes the simulated system calls in the scheduler goroutine.
@@ -163,7 +188,7 @@ func (p *kernelPort) sysHandler(task int, req core.SysReq) core.SysResp {
 		}
 		return core.SysResp{Data: d.Bytes, A: int64(d.FromPid) | int64(d.Groups)<<32, N: nn}
 	case sysClose:
-		p.k.Close()
+		return core.SysResp{Errno: int64(p.doClose())}
 	case sysInject:
 		for _, d := range p.k.Queue {
 			d.Consumed = true
@@ -231,7 +256,9 @@ func (s *stubNetlink) Receive(nonBlocking bool, p libaudit.NetlinkParser) ([]sys
 }
 
 func (s *stubNetlink) Close() error {
-	s.gb.g.close()
+	if e := s.gb.g.close(); e != 0 {
+		return syscall.Errno(e)
+	}
 	return nil
 }
 
@@ -279,7 +306,9 @@ func (s *simSocket) Recvfrom(p []byte, flags int) (int, syscall.Sockaddr, error)
 }
 
 func (s *simSocket) Close() error {
-	s.gb.g.close()
+	if e := s.gb.g.close(); e != 0 {
+		return syscall.Errno(e)
+	}
 	return nil
 }
 
